@@ -22,7 +22,7 @@ func init() {
 		Level: "exploration",
 		Rule: "one record list per case (0..6 records; names over printable ASCII incl. leading '>','@','+','#'; trimmed descriptions with inner blanks/tabs; letters from the 7 built-in alphabets, mixed case; " +
 			"lengths 0,1,W-1,W,W+1,4095..8193,<=20000) written by the real FASTA writer (widths 1,2,59..61,len-1..len+1,4096,random) or FASTQ writer (QID on/off, 5 Phred-offset encodings, qualities over the printable range incl. strings starting with '@'/'+'; " +
-			"plain and quality sources and templates), read back through a chunked source, compared after the whole file is consumed, cross-checked by an independent parser of the emitted bytes and byte counts; plus %a/%q renderings. " +
+			"plain and quality sources and templates), read back through a chunked source, compared after the whole file is consumed, cross-checked by an independent parser of the emitted bytes and byte counts (also under write faults: the list is written again through a writer that accepts only the first B bytes and then short-writes with an error; the counts returned must add up to the bytes accepted); FASTA read-backs go into a linear.Seq or a linear.QSeq template; 1 record in 25 has a header line several read buffers long; plus %a/%q renderings. " +
 			"Non-trivial = >=1 record and (a sequence longer than the width or quality-carrying); distinct = (format,type,encoding,QID,width class,length classes,name/desc shape)+content hash",
 		Batches: func(t string) int {
 			if t == "thorough" {
